@@ -82,7 +82,8 @@ def _selector_table(fn, var='rec'):
     out = []
     for nd in g.nodes:
         a = nd.ast
-        if nd.kind == 'stmt' and isinstance(a, ast.Assign) and path_of(a.targets[0]) == var and isinstance(a.value, ast.Name):
+        if nd.kind == 'stmt' and isinstance(a, ast.Assign) and path_of(a.targets[0]) == var \
+                and isinstance(a.value, (ast.Name, ast.IfExp)):
             facts = IN[nd.id] or ()
             conds = {}
             for f in facts:
@@ -90,7 +91,22 @@ def _selector_table(fn, var='rec'):
                     conds[f[1]] = (f[2],)
                 elif f[0] == 'In' and f[1] not in conds:
                     conds[f[1]] = tuple(sorted(f[2]))
-            out.append((conds, a.value.id, nd))
+
+            def split(v, cnd):
+                """a conditional expression selects like an if/else: one entry per arm with the arm's condition"""
+                if isinstance(v, ast.Name):
+                    out.append((cnd, v.id, nd))
+                elif isinstance(v, ast.IfExp):
+                    from ..cfg import facts_from_test
+                    for arm, truth in ((v.body, True), (v.orelse, False)):
+                        c2 = dict(cnd)
+                        for f in facts_from_test(v.test, truth):
+                            if f[0] == 'Eq':
+                                c2[f[1]] = (f[2],)
+                            elif f[0] == 'In' and f[1] not in c2:
+                                c2[f[1]] = tuple(sorted(f[2]))
+                        split(arm, c2)
+            split(a.value, conds)
     return g, IN, out
 
 
@@ -114,10 +130,13 @@ def r1_languages(ctx):
     yield Ob('validation:match_re matches the value itself', ok, ctx.floc(fn, searches[0]),
              '' if ok else 'the matcher is applied to %s' % norm(searches[0]))
     whole = False
+    mvars = {path_of(n.targets[0]) for n in ast.walk(fn) if isinstance(n, ast.Assign) and n.value is searches[0]}
+    mtexts = {'%s.group(0)' % v for v in mvars if v} | {'%s.group()' % v for v in mvars if v} \
+        | {norm(searches[0]) + '.group(0)', norm(searches[0]) + '.group()'}
     for n in ast.walk(fn):
         if isinstance(n, ast.Compare) and len(n.ops) == 1 and isinstance(n.ops[0], (ast.NotEq, ast.Eq)):
             sides = {norm(n.left), norm(n.comparators[0])}
-            if 'val' in sides and (sides & {'m.group(0)', 'm.group()'}):
+            if 'val' in sides and (sides & mtexts):
                 whole = True
     ok = whole or meth == 'fullmatch'
     yield Ob('validation:match_re compares the match with the whole value', ok, ctx.floc(fn),
@@ -553,10 +572,14 @@ def _date_rule(ctx):
     def rejected(y, m, d):
         cnt[0] += 1
         try:
-            vis = explore(g, {'year': y, 'month': m, 'day': d}, funcs=funcs, start=start, unknown='stop')
+            vis = explore(g, {'year': y, 'month': m, 'day': d}, funcs=funcs, start=start, unknown='stop', on_unknown=_unknown)
         except RuntimeError as e:
             raise AnalysisError('is_valid_date: %s' % e)
         return bool(vis & rejecting)
+
+    def _unknown(nd, env):
+        if any(isinstance(x, ast.Name) and (x.id in FLD or x.id in env) for x in ast.walk(nd.ast)):
+            raise AnalysisError('is_valid_date: a test on the date fields cannot be evaluated: %s' % norm(nd.ast))
 
     where = ctx.floc(fn0, start.stmt if start.stmt is not None else fn0)
     rej = {y for y in range(0, 10000) if rejected(y, 1, 1)}
@@ -809,9 +832,9 @@ def r5_dispatch(ctx):
 
 
 RULES = [
-    Rule('C13.R1', 'regex constants equal the X12 value languages (DFA equivalence); wrappers and selector tables sound', r1_languages, floor=20),
-    Rule('C13.R2', 'no exception can leave IsValidDataType (unpack arity, int(), explicit raises, indexing)', r2_never_raises, floor=8),
-    Rule('C13.R3', 'field atoms: hour/minute/second/month/year/day bounds and the leap rule equal the calendar', r3_atoms, floor=20),
-    Rule('C13.R4', 'accepted lengths: time {4,6,7,8}, D8 {8}, D6 {6}, DT {6,8,12}', r4_lengths, floor=4),
-    Rule('C13.R5', 'dispatcher total: rejecting else, every type dispatched, RD8 = two D8 joined by one hyphen', r5_dispatch, floor=8),
+    Rule('C13.R1', 'regex constants equal the X12 value languages (DFA equivalence); wrappers and selector tables sound', r1_languages, floor=15),
+    Rule('C13.R2', 'no exception can leave IsValidDataType (unpack arity, int(), explicit raises, indexing)', r2_never_raises, floor=6),
+    Rule('C13.R3', 'field atoms: hour/minute/second/month/year/day bounds and the leap rule equal the calendar', r3_atoms, floor=15),
+    Rule('C13.R4', 'accepted lengths: time {4,6,7,8}, D8 {8}, D6 {6}, DT {6,8,12}', r4_lengths, floor=3),
+    Rule('C13.R5', 'dispatcher total: rejecting else, every type dispatched, RD8 = two D8 joined by one hyphen', r5_dispatch, floor=6),
 ]
